@@ -368,3 +368,75 @@ pub fn life_drive(args: &[String]) {
     }
     w.finish();
 }
+
+// ------------------------------------------------------------------------------------------ C02 snapshots
+/// heap-drive --profile P --seed S --n N --out FILE : runs under forced collections with heap
+/// snapshots; per collection {Snapshot, Free*, GcEnd}, object addresses renamed to small ids
+pub fn heap_drive(args: &[String]) {
+    use std::collections::HashMap;
+    let seed = arg_num(args, "--seed", 1);
+    let n = arg_num(args, "--n", 20) as usize;
+    let profile = arg_val(args, "--profile").unwrap_or("alloc").to_string();
+    let out = arg_val(args, "--out").expect("--out");
+    let start = arg_num(args, "--start-case", 0) as usize;
+    let append = arg_num(args, "--append", 0) == 1;
+    let per_run = arg_num(args, "--collections", 12) as usize;
+    let mut w = TraceWriter::open(out, append, 30_000);
+    for id in start..n {
+        let mut rng = Rng::new(seed.wrapping_mul(7_919_117).wrapping_add(id as u64));
+        let p = Gen::new(&mut rng, Profile::named(&profile)).program();
+        let compiled = match cao_lang::compiler::compile(p.to_module(), None) {
+            Ok(c) => c,
+            Err(_) => continue,
+        };
+        w.begin(id, &json!({"id": id, "profile": profile, "prog": p.to_json(), "phase": "count"}));
+        verif::reset(false);
+        let mut vm = make_vm(&p, &RunCfg::default());
+        let _ = guarded(|| vm.run(&compiled));
+        let allocs = verif::with_hooks(|h| h.alloc_count).max(1);
+        drop(vm);
+        let at: Vec<u64> = (0..per_run).map(|_| rng.below(allocs as usize) as u64).collect();
+        w.begin(id, &json!({"id": id, "profile": profile, "prog": p.to_json(), "at": at}));
+        let r = guarded(|| {
+            verif::reset(true);
+            verif::with_hooks(|h| {
+                h.snapshots = true;
+                h.force_gc_at = at.iter().copied().collect();
+            });
+            let mut vm = make_vm(&p, &RunCfg::default());
+            let _ = vm.run(&compiled);
+            let ev = verif::take_events();
+            verif::reset(false);
+            ev
+        });
+        let ev = match r {
+            Ok(ev) => ev,
+            Err(msg) => {
+                w.end(json!({"e": "Panic", "case": id, "msg": msg}));
+                continue;
+            }
+        };
+        w.line(json!({"e": "Reset", "case": id, "profile": profile}));
+        let mut ids: HashMap<usize, usize> = HashMap::new();
+        for e in ev {
+            match e {
+                Event::GcSnapshot(s) => {
+                    ids.clear();
+                    for (k, (a, _, _)) in s.objects.iter().enumerate() {
+                        ids.insert(*a, k + 1);
+                    }
+                    // an address that is not an object of the list is reported as id 0 (never live)
+                    let m = |v: &Vec<usize>| v.iter().map(|a| ids.get(a).copied().unwrap_or(0)).collect::<Vec<_>>();
+                    let objects: Vec<J> = s.objects.iter().map(|(a, kind, edges)| json!({"id": ids[a], "kind": kind, "edges": m(edges)})).collect();
+                    w.line(json!({"e": "Snapshot", "stack": m(&s.stack), "globals": m(&s.globals), "frames": m(&s.frames),
+                                  "upvals": m(&s.upvals), "guards": m(&s.guards), "objects": objects}));
+                }
+                Event::GcFree { addr } => w.line(json!({"e": "Free", "id": ids.get(&addr).copied().unwrap_or(0)})),
+                Event::GcEnd { .. } => w.line(json!({"e": "GcEnd"})),
+                _ => {}
+            }
+        }
+        w.end(json!({"e": "Note", "case": id}));
+    }
+    w.finish();
+}
